@@ -28,4 +28,39 @@ PROPS = {
                         "the tree level of a key (Key.Layer) is outside these theorems: numerically equal INTEGER and REAL keys hash to different levels (finding F9)"],
         "explanation": "Key.Order, orderType, typeIndex, order and compareIntReal are regenerated from key.go by go2lean on every run; order_matches_sqlite proves the generated function equal to the hand-written SQLite order on every admissible pair (full int64 range, every non-NaN double), and the order laws are proved on the specification and transferred.",
     },
+    "C01": {
+        "modules": ["S3db.Props.C01"],
+        "tie_files": ["kv/crdt/value.go"],
+        "corr": {
+            "quick": [("rows", ["rows", "-n", "3000"]), ("tbl", ["tbl", "-n", "120"])],
+            "thorough": [("rows", ["rows", "-n", "50000"]), ("tbl", ["tbl", "-n", "3000"])],
+        },
+        "trusted_base": [MAST, "time arithmetic without time.Duration saturation (|dt| < 292 years); the model works on absolute times",
+                         "every writer of a prefix declares the same column list (RowInv speaks of the declared columns)"],
+        "assumptions": ["pairwise distinct write times on conflicting rows, or byte-identical retries (the property's quantifier; hypotheses StatusR / ColR)",
+                        "rows written through SQL: every INSERT assigns every column (RowInv); on arbitrary hand-built rows MergeRows is not a join (merge_not_join_unreachable)"],
+        "explanation": "MergeRows/mergeValues/Insert/Update/Delete are hand-modelled (Model/Row.lean, Model/Table.lean) and run against the real functions (rows: 2 merges per generated pair; tbl: multi-writer histories at the virtual-table level with a chosen merge order at every open, entry-level dumps compared). The theorems show that on SQL-written rows the merge is a cell-wise selection, hence any two merge plans over the same versions agree (C01_converges, C01_visible) and re-merging is absorbed (C01_remerge_absorbs). Implementation-only oracles: 5 readers with different merge orders agree; quiescent re-open issues no PUT.",
+    },
+    "C02": {
+        "modules": ["S3db.Props.C02"],
+        "tie_files": [],
+        "corr": {
+            "quick": [("tbl", ["tbl", "-n", "150"])],
+            "thorough": [("tbl", ["tbl", "-n", "4000"])],
+        },
+        "trusted_base": [MAST, "time arithmetic without time.Duration saturation"],
+        "assumptions": ["distinct write times per key among the accepted statements", "the SQL glue (NoChange handling) is exercised by the sql stream and tied by the facts columnHonoursNoChange / valuesSkipNoChange"],
+        "explanation": "local_insert/local_update/local_delete show what each statement contributes to the cells of its key; C01.cells_of_plan shows merges merge cells; status_latest/column_latest/delete_sticky identify the winner. The tbl stream compares the merged table of every generated history with the README rule computed independently from the accepted statements.",
+    },
+    "C15": {
+        "modules": ["S3db.Props.C15"],
+        "tie_files": [],
+        "corr": {
+            "quick": [("tbl", ["tbl", "-n", "120"])],
+            "thorough": [("tbl", ["tbl", "-n", "3000"])],
+        },
+        "trusted_base": [MAST],
+        "assumptions": ["retries carry the same write time and the same values"],
+        "explanation": "retry_* and older_*_cannot_undo on the table model; the tbl stream replays earlier accepted statements on arbitrary writers (retry) and uses non-monotone write times throughout.",
+    },
 }
